@@ -541,3 +541,11 @@ def shared_geometry(ctx: Ctx) -> None:
     from . import C18 as _c18
     from .common import support
     support(ctx, [_c18.r1, _c18.r3, _c18.r4, _c18.r6], {"Rectangle.overlap", "Rectangle.area_overlap", "Rectangle.area", "Rectangle.bounding_box"})
+
+
+@rule("C05", "R7.vector-arithmetic", "LAW",
+      "the centroid and wire-length formulas are evaluated with exact vector arithmetic: Point +, -, *, / component-wise "
+      "without rounding, dot product and norm by their definitions", floor=6)
+def r7(ctx: Ctx) -> None:
+    from .points import point_arithmetic
+    point_arithmetic(ctx, ops={"__neg__", "__add__", "__sub__", "__mul__", "__truediv__", "__and__", "norm"})
